@@ -383,6 +383,16 @@ func c17Binary(t *testing.T, r *vres.Report) {
 		// and of the plugins section: a chain under a misspelt key is no chain at all
 		"@misspelt-chain-key":   "plugins:\n  enabled: true\n  chains:\n    - name: custom-auth\n      config:\n        apiKey: sesame\n",
 		"@misspelt-enabled-key": "plugins:\n  enable: true\n  chain:\n    - name: custom-auth\n      config:\n        apiKey: sesame\n",
+		// the same misspelt keys arriving through YAML's own means of sharing settings: flow
+		// style, an aliased entry, a merge key with one alias and with a list of aliases (the
+		// decoder merges the keys in and drops the ones the structure does not have)
+		"flow-style-misspelt":            "    - {name: size_limit, confg: {max_request_body: 100}}\n",
+		"@alias-entry-misspelt":          "x-entries:\n  - &sl\n    name: size_limit\n    confg:\n      max_request_body: 100\nplugins:\n  enabled: true\n  chain:\n    - *sl\n",
+		"@merge-single-misspelt":         "x-a: &a\n  confg:\n    max_request_body: 100\nplugins:\n  enabled: true\n  chain:\n    - name: size_limit\n      <<: *a\n",
+		"@merge-list-misspelt":           "x-a: &a\n  name: size_limit\nx-b: &b\n  confg:\n    max_request_body: 100\nplugins:\n  enabled: true\n  chain:\n    - <<: [*a, *b]\n",
+		"@merge-list-misspelt-second":    "x-a: &a\n  confg:\n    max_request_body: 100\nx-b: &b\n  name: size_limit\nplugins:\n  enabled: true\n  chain:\n    - <<: [*b, *a]\n",
+		"@plugins-merge-list-misspelt":   "x-p: &p\n  enable: true\nx-q: &q\n  chain:\n    - name: custom-auth\n      config:\n        apiKey: sesame\nplugins:\n  <<: [*q, *p]\n",
+		"@plugins-merge-single-misspelt": "x-p: &p\n  enable: true\n  chain:\n    - name: custom-auth\n      config:\n        apiKey: sesame\nplugins:\n  <<: *p\n",
 	}
 	dir := t.TempDir()
 	var evals int64
@@ -438,7 +448,7 @@ func c17Binary(t *testing.T, r *vres.Report) {
 		}
 	}
 	r.AddScenario(vres.Scenario{Name: "fail-closed-binary", Engine: "P", Evaluations: evals, Distinct: int64(outs.N()), Outcomes: outs.N(),
-		Rule: "the real binary is started on generated YAML with one invalid chain per plugin; it must exit non-zero without ever accepting a connection on the proxy port", Bound: "5 configurations",
+		Rule: "the real binary is started on generated YAML with one invalid chain per plugin; it must exit non-zero without ever accepting a connection on the proxy port", Bound: fmt.Sprintf("%d configurations (invalid options per plugin; misspelt keys of a chain entry and of the plugins section, written out and arriving through flow style, aliases and merge keys)", len(chains)),
 		Exhaustive: true, Sample: map[string]interface{}{"chain": "custom-auth without apiKey"}, Extra: map[string]interface{}{"wall_s": time.Since(start).Seconds()}})
 }
 
